@@ -73,4 +73,152 @@ theorem watchedRange_none_iff (d : List Char) (es : List Entry) : watchedRange d
   unfold watchedRange
   cases matching d es <;> simp
 
+/-! ### JSON replies -/
+
+theorem watchedRange_eq_unionOf (d : List Char) (es : List Entry) : watchedRange d es = unionOf (matching d es) := by
+  unfold watchedRange unionOf
+  cases matching d es <;> rfl
+
+theorem matching_cons (d : List Char) (e : Entry) (es : List Entry) :
+    matching d (e :: es) =
+      (if comparable e.desc = comparable d then (match e.range with | some r => [r] | none => []) else []) ++
+        matching d es := by
+  unfold matching
+  simp only [List.filterMap_cons]
+  by_cases h : comparable e.desc = comparable d
+  · cases hr : e.range <;> simp [h, hr]
+  · simp [h]
+
+/-- reading a well-typed reply gives the ranges of the matching entries: nothing is refused. -/
+theorem collectRanges_toJ (d : List Char) : ∀ (es : List Entry),
+    collectRanges (comparable d) (es.map Entry.toJ) = .ok (matching d es)
+  | [] => rfl
+  | e :: es => by
+    rw [List.map_cons, matching_cons]
+    unfold collectRanges
+    rw [collectRanges_toJ d es]
+    obtain ⟨desc, range⟩ := e
+    by_cases h : comparable desc = comparable d
+    · cases range with
+      | none => simp [Entry.toJ, J.fields, getField, List.lookup, h, bind, Except.bind, pure, Except.pure]
+      | some r =>
+        simp [Entry.toJ, J.fields, getField, List.lookup, h, bind, Except.bind, pure, Except.pure, J.list, J.toInt]
+    · cases range with
+      | none => simp [Entry.toJ, J.fields, getField, List.lookup, h, bind, Except.bind, pure, Except.pure]
+      | some r => simp [Entry.toJ, J.fields, getField, List.lookup, h, bind, Except.bind, pure, Except.pure]
+
+/-- on a well-typed reply the JSON reader IS the integer model. -/
+theorem watchedRangeJ_replyOf (d : List Char) (es : List Entry) :
+    watchedRangeJ d (replyOf es) = .ok (watchedRange d es) := by
+  unfold watchedRangeJ replyOf
+  simp [J.fields, getField, List.lookup, J.list, bind, Except.bind, pure, Except.pure, collectRanges_toJ,
+    watchedRange_eq_unionOf]
+
+theorem foldl_min_attained (l : List Range) (a : Int) :
+    l.foldl (fun a x => min a x.1) a = a ∨ ∃ x ∈ l, l.foldl (fun a x => min a x.1) a = x.1 := by
+  induction l generalizing a with
+  | nil => simp
+  | cons y ys ih =>
+    simp only [List.foldl_cons]
+    rcases ih (min a y.1) with h | ⟨x, hx, h⟩
+    · by_cases hm : a ≤ y.1
+      · left; rw [h]; omega
+      · right; exact ⟨y, List.mem_cons_self .., by rw [h]; omega⟩
+    · right; exact ⟨x, List.mem_cons_of_mem _ hx, h⟩
+
+theorem foldl_max_attained (l : List Range) (a : Int) :
+    l.foldl (fun a x => max a x.2) a = a ∨ ∃ x ∈ l, l.foldl (fun a x => max a x.2) a = x.2 := by
+  induction l generalizing a with
+  | nil => simp
+  | cons y ys ih =>
+    simp only [List.foldl_cons]
+    rcases ih (max a y.2) with h | ⟨x, hx, h⟩
+    · by_cases hm : y.2 ≤ a
+      · left; rw [h]; omega
+      · right; exact ⟨y, List.mem_cons_self .., by rw [h]; omega⟩
+    · right; exact ⟨x, List.mem_cons_of_mem _ hx, h⟩
+
+/-- the union is the smallest range containing every listed range: it contains each, and both ends are attained. -/
+theorem unionOf_spec (l : List Range) (r : Range) (h : unionOf l = some r) :
+    (∀ x ∈ l, r.1 ≤ x.1 ∧ x.2 ≤ r.2) ∧ (∃ x ∈ l, x.1 = r.1) ∧ (∃ x ∈ l, x.2 = r.2) := by
+  cases l with
+  | nil => cases h
+  | cons y ys =>
+    simp only [unionOf, Option.some.injEq] at h
+    subst h
+    have h1 := foldl_min_le ys y.1
+    have h2 := foldl_max_ge ys y.2
+    refine ⟨?_, ?_, ?_⟩
+    · intro x hx
+      rcases List.mem_cons.mp hx with rfl | hx
+      · exact ⟨h1.1, h2.1⟩
+      · exact ⟨h1.2 x hx, h2.2 x hx⟩
+    · rcases foldl_min_attained ys y.1 with h | ⟨x, hx, h⟩
+      · exact ⟨y, List.mem_cons_self .., h.symm⟩
+      · exact ⟨x, List.mem_cons_of_mem _ hx, h.symm⟩
+    · rcases foldl_max_attained ys y.2 with h | ⟨x, hx, h⟩
+      · exact ⟨y, List.mem_cons_self .., h.symm⟩
+      · exact ⟨x, List.mem_cons_of_mem _ hx, h.symm⟩
+
+theorem unionOf_none_iff (l : List Range) : unionOf l = none ↔ l = [] := by
+  cases l <;> simp [unionOf]
+
+/-- what `watched_range` answers on ANY reply it does not refuse: the union of the ranges it collected. -/
+theorem watchedRangeJ_ok (d : List Char) (reply : J) (o : Option Range) (h : watchedRangeJ d reply = .ok o) :
+    ∃ kv ds l rs, reply = .obj kv ∧ kv.lookup "descriptors".toList = some ds ∧ ds = .arr l ∧
+      collectRanges (comparable d) l = .ok rs ∧ o = unionOf rs := by
+  unfold watchedRangeJ at h
+  cases reply with
+  | obj kv =>
+    cases hl : kv.lookup "descriptors".toList with
+    | none =>
+      have hg : getField kv "descriptors" = .error .value := by unfold getField; rw [hl]
+      simp only [J.fields, bind, Except.bind, hg] at h
+      cases h
+    | some ds =>
+      have hg : getField kv "descriptors" = .ok ds := by unfold getField; rw [hl]
+      simp only [J.fields, bind, Except.bind, hg] at h
+      cases ds with
+      | arr l =>
+        simp only [J.list] at h
+        cases hc : collectRanges (comparable d) l with
+        | error e => simp [hc] at h
+        | ok rs =>
+          simp only [hc, pure, Except.pure, Except.ok.injEq] at h
+          exact ⟨kv, _, l, rs, rfl, hl, rfl, hc, h.symm⟩
+      | _ => simp [J.list] at h
+  | _ => simp [J.fields, bind, Except.bind] at h
+
+def Honoured (p : J × J) : Prop :=
+  (∃ kv, p.1 = .obj kv) ∧ ∃ kv, p.2 = .obj kv ∧ ((kv.lookup "success".toList).map J.truthy).getD false = true
+
+theorem importedLoop_ok_iff : ∀ (rq an : List J), importedLoop rq an = .ok () ↔ ∀ p ∈ rq.zip an, Honoured p
+  | [], _ => by simp [importedLoop]
+  | _ :: _, [] => by simp [importedLoop]
+  | r :: rq, a :: an => by
+    have ih := importedLoop_ok_iff rq an
+    simp only [importedLoop, List.zip_cons_cons, List.forall_mem_cons, bind, Except.bind]
+    cases r with
+    | obj rkv =>
+      cases a with
+      | obj akv =>
+        simp only [J.fields]
+        cases hs : ((akv.lookup "success".toList).map J.truthy).getD false with
+        | false =>
+          simp only [Bool.not_false, if_true, reduceCtorEq, false_iff, not_and]
+          intro h
+          obtain ⟨_, kv, e, hk⟩ := h
+          cases e; rw [hs] at hk; cases hk
+        | true =>
+          simp only [Bool.not_true, Bool.false_eq_true, if_false, ih]
+          constructor
+          · intro h; exact ⟨⟨⟨rkv, rfl⟩, akv, rfl, hs⟩, h⟩
+          · intro h; exact h.2
+      | _ =>
+        simp only [J.fields, reduceCtorEq, false_iff, not_and]
+        intro h; obtain ⟨_, kv, e, _⟩ := h; cases e
+    | _ =>
+      simp only [J.fields, reduceCtorEq, false_iff, not_and]
+      intro h; obtain ⟨⟨kv, e⟩, _⟩ := h; cases e
+
 end Btc.CoreImport
